@@ -28,6 +28,26 @@ def generate(rng, tier="quick"):
     cfg = wl.gen_config(rng, tbl, max_ctx=3, max_tests=3, fault_kinds=kinds, max_faults=4)
     pool = tuple(f for f in STREAM_FES if not (tbl.get("unsorted") and f.startswith("xarray")))
     fes = rng.subset(pool, 0.45, at_least=1)
+    if not tbl.get("unsorted") and not tbl.get("no_time") and tbl.get("xr_time", "coord") == "coord" and rng.chance(0.12):
+        # an xarray dataset whose variables do not all share their dimensions: "w" lives on a dimension of
+        # its own, so the stream has no time / depth / position to supply for it (fault kind F4, by construction)
+        n = len(tbl["times"])
+        m = n + rng.randint(1, 3) if n < 3 or rng.chance(0.5) else n - rng.randint(1, 2)
+        tbl["side"] = {"name": "w", "values": wl.gen_values(rng, m)}
+        fes = rng.subset(("xarray_obj", "xarray_path"), 0.6, at_least=1)
+        for c in cfg["contexts"]:
+            if rng.chance(0.7):
+                cands = [
+                    ("qartod", "gross_range_test", wl.p_gross_range(rng), "healthy"),
+                    ("qartod", "spike_test", wl.p_spike(rng), "healthy"),
+                    ("argo", "sim_probe", wl.p_probe(rng), "healthy"),
+                    ("qartod", "flat_line_test", wl.p_flat(rng), "F4"),
+                    ("qartod", "attenuated_signal_test", {"suspect_threshold": 2.0, "fail_threshold": 1.0}, "F4"),
+                    ("qartod", "rate_of_change_test", wl.p_roc(rng), "F4"),
+                    ("qartod", "climatology_test", {"config": [{"tspan": ["2019-01-01", "2022-01-01"], "vspan": [-8, 8]}]}, "F4"),
+                ]
+                for mod, test, params, role in rng.sample(cands, rng.randint(1, 3)):
+                    c["entries"].insert(rng.randint(0, len(c["entries"])), {"sid": "w", "module": mod, "test": test, "params": params, "role": role})
     if len(tbl["cols"]) == 1 and rng.chance(0.5):
         fes.append("qcconfig")
     scn = {
@@ -301,6 +321,8 @@ def execute(scn):
 
     if tbl.get("no_time"):
         bump("probes", "source_without_time_axis")
+    if tbl.get("side"):
+        bump("probes", "variable_on_its_own_dimension")
     end_state = {}
     for r in reps:
         fe = r.frontend
